@@ -1,7 +1,8 @@
 ---------------------------- MODULE Trace_Session ----------------------------
 (* Batch validation of recorded in-process call histories.  A case is [id, events]; an event is
      [req, rep, same, ch]
-   req : request kind (index into Session!ReqTable)
+   req : request kind (index into Session!ReqTable); 0 = Work (the process computed / slept for
+         longer than the search limit of the following analyses, no analysis)
    rep : 0 if the report text equals the fresh-process reference of req, otherwise the number
          (>= 1) of the distinct deviating text
    ch  : names of shared objects (model files) whose fingerprint after the call is not what the
@@ -16,6 +17,7 @@ ObsRep(e) == Rep(e.req, e.rep)      \* rep # 0: a report some history produced t
 
 RECURSIVE FirstBad(_, _)
 FirstBad(ev, i) == IF i > Len(ev) THEN 0
+                   ELSE IF ev[i].req = 0 THEN FirstBad(ev, i + 1)
                    ELSE IF ev[i].req \notin Req \/ ObsRep(ev[i]) # Ref(ev[i].req) THEN i
                    ELSE FirstBad(ev, i + 1)
 RECURSIVE FirstChanged(_, _)
@@ -23,7 +25,8 @@ FirstChanged(ev, i) == IF i > Len(ev) THEN 0
                        ELSE IF Len(ev[i].ch) > 0 THEN i ELSE FirstChanged(ev, i + 1)
 \* the Level-B machine is run alongside to keep the recorded history a behaviour of Session
 RECURSIVE RunSession(_, _, _)
-RunSession(st, ev, i) == IF i > Len(ev) THEN st ELSE RunSession(AnalyzeEffect(st, ev[i].req), ev, i + 1)
+RunSession(st, ev, i) == IF i > Len(ev) THEN st
+                         ELSE RunSession(IF ev[i].req = 0 THEN WorkEffect(st) ELSE AnalyzeEffect(st, ev[i].req), ev, i + 1)
 
 Check ==
   LET c == Cases[tid]
@@ -34,7 +37,7 @@ Check ==
   IN /\ dv
      /\ IF b # 0
           THEN PrintT(<<"REJECT", c.id, "history-dependent", b, c.events[b].req, c.events[b].rep>>)
-          ELSE fin.loaded = { ReqTable[c.events[i].req].arch : i \in DOMAIN c.events }
+          ELSE fin.loaded = { ReqTable[c.events[i].req].arch : i \in { j \in DOMAIN c.events : c.events[j].req # 0 } }
 TraceInit == tid = 1
 TraceNext == tid < Len(Cases) /\ tid' = tid + 1
 TraceSpec == TraceInit /\ [][TraceNext]_tid
